@@ -16,7 +16,7 @@ UNITS = [
                                   '(x = 0) and the far-downstream end knot only, so the public call returns a linear ramp of density, velocity and pressure over '
                                   'the whole downstream end interval; mass flux of the returned fields varies by 6e-3 (16 % at M0 = 3) although it is constant to '
                                   '1e-15 on the knots')],
-              note='fluxes of the RETURNED fields (public call, 1500 points across the profile) and of the internal knots; 'mass / total momentum / total energy flux along the computed profiles: the profiles come from SciPy ODE integration and root finding (class NU), checked on the real code for non-default parameters'),
+              note='fluxes of the RETURNED fields (public call, 1500 points across the profile) and of the internal knots; mass / total momentum / total energy flux along the computed profiles: the profiles come from SciPy ODE integration and root finding (class NU), checked on the real code for non-default parameters'),
 ]
 
 
